@@ -53,7 +53,8 @@ Theorem pushed_stream_event_shape cfg promised hs s s' evs :
 Proof.
   unfold receive_push_promise_in_band. unfold bind at 1. unfold fsm at 1.
   destruct (process_input (s_id s) (s_sm s) SI_RECV_PUSH_PROMISE) as [m [e1| |]]; try discriminate.
-  unfold bind at 1. unfold lift_res at 1. destruct (build_flags e1) as [f| |]; try discriminate.
+  unfold bind at 1. destruct e1 as [|e0 e1]; [unfold lift_res, perr; discriminate|]. unfold ret at 1.
+  unfold bind at 1. unfold lift_res at 1. destruct (build_flags (e0 :: e1)) as [f| |]; try discriminate.
   unfold bind at 1. unfold lift_res at 1. destruct (process_received_headers cfg f hs) as [h| |] eqn:Ep; try discriminate.
   unfold bind, get, ret. intros H. injection H as _ <-. exists f, h. split; [reflexivity|exact Ep].
 Qed.
